@@ -414,7 +414,7 @@ pub fn run_driver(property: &str, explore: impl FnOnce(&mut Ctx), replay: impl F
     install_silent_hook();
     let args: Vec<String> = std::env::args().collect();
     let mut ctx = Ctx::from_env(property);
-    let limit = env_u64("VERIF_CASE_LIMIT_S", if ctx.tier.is_thorough() { 900 } else { 180 });
+    let limit = env_u64("VERIF_CASE_LIMIT_S", if ctx.tier.is_thorough() { 900 } else { 90 });
     spawn_watchdog(limit, ctx.build.clone());
     match args.get(1).map(|s| s.as_str()) {
         Some("worker") => {
